@@ -5,6 +5,7 @@
    glue are runtime behaviour observed by execution (see DESIGN.md, C03). *)
 From JsonSyntax Require Import Base.Prelude Base.Value Base.Unicode Model.Parser Model.EntryPoints
   Model.CodeMapNav Spec.Grammar Spec.Preorder Proofs.ParserRecDef Proofs.ParserL1 Proofs.ParserSafety Proofs.NavProofs.
+From JsonSyntax Require Import Base.ConstSyntax Generated.Consts Proofs.ConstsTie.
 
 (* never a panic: `code_map.get_mut(i).unwrap()`, `entry_count - i`, the surrogate formula *)
 Theorem C03_never_panics : forall o s site, parse_items o s <> Panic site.
@@ -51,7 +52,16 @@ Proof. exact code_map_indices_valid. Qed.
 Theorem C03_traverse_iterative : forall v, traverse v = preorder v /\ traverse_leftover v = [].
 Proof. exact traverse_preorder. Qed.
 
+(* static tie (DESIGN.md section 4): the stack machine Value::parse_in of value.rs -- the explicit stack, its four kinds of
+   frames, stack_context, value_or_parse, the end-of-input check -- EXECUTED by the translator from the source on whole
+   documents under the strict and the flexible record, every function it calls being run from the source as well, returns
+   what the model's machine Parser.parse_items returns on the same documents: value, code map, or the error *)
+Theorem C03_stack_machine_from_source :
+  src_leaf_machine = ct_machine_on src_leaf_machine /\ (5000 <=? length src_leaf_machine)%nat = true.
+Proof. exact ConstsTie.stack_machine_from_source. Qed.
+
 Print Assumptions C03_never_panics.
+Print Assumptions C03_stack_machine_from_source.
 Print Assumptions C03_entry_points_never_panic.
 Print Assumptions C03_terminates.
 Print Assumptions C03_total.
